@@ -68,12 +68,15 @@ def _lt(a_text: str, b_text: str, pol: bool):
     return {(f"{a_text} < {b_text}", pol)}
 
 
+EMPTINESS = [True]  # sa.summary switches the len()-emptiness rewriting off: it reasons on lengths as integers
+
+
 def _order(left, op, right, truth):
     """Canonical atoms for an order comparison; None if not handled."""
     lc, rc = _const_int(left), _const_int(right)
     lt, rt = norm(left), norm(right)
     # emptiness via len()
-    for side, other_c, flipped in ((left, rc, False), (right, lc, True)):
+    for side, other_c, flipped in (((left, rc, False), (right, lc, True)) if EMPTINESS[0] else ()):
         arg = _len_arg(side)
         if arg is not None and other_c is not None:
             o = type(op)
